@@ -333,6 +333,50 @@ fn random_elem_path(rng: &mut Rng, root: &G) -> Vec<usize> {
     ep
 }
 
+fn max_preceding_siblings(root: &G) -> usize {
+    fn walk(g: &G, best: &mut usize) {
+        if let G::El { kids, .. } = g {
+            let n = kids.iter().filter(|k| matches!(k, G::El { .. })).count();
+            if n > 0 && n - 1 > *best {
+                *best = n - 1;
+            }
+            for k in kids {
+                walk(k, best);
+            }
+        }
+    }
+    let mut best = 0;
+    walk(root, &mut best);
+    best
+}
+
+/// an element-index path biased towards elements that have several element siblings before them
+fn sibling_rich_elem_path(rng: &mut Rng, root: &G) -> Vec<usize> {
+    fn walk(g: &G, ep: &mut Vec<usize>, out: &mut Vec<(usize, Vec<usize>)>) {
+        if let G::El { kids, .. } = g {
+            let mut n = 0;
+            for k in kids {
+                if matches!(k, G::El { .. }) {
+                    n += 1;
+                    ep.push(n);
+                    out.push((n - 1, ep.clone()));
+                    walk(k, ep, out);
+                    ep.pop();
+                }
+            }
+        }
+    }
+    let mut all = vec![];
+    walk(root, &mut vec![], &mut all);
+    for want in [2usize, 1] {
+        let c: Vec<&(usize, Vec<usize>)> = all.iter().filter(|(b, _)| *b >= want).collect();
+        if !c.is_empty() && rng.pct(80) {
+            return rng.pick(&c).1.clone();
+        }
+    }
+    random_elem_path(rng, root)
+}
+
 #[derive(Clone, Debug)]
 pub struct Case {
     pub id: u64,
@@ -442,17 +486,36 @@ fn serialise_document(doc_text: &str, indent: bool) -> Option<String> {
 pub fn gen_case(seed: u64, id: u64) -> Case {
     let mut rng = Rng::new(crate::rng::mix(seed ^ 0xC17, id));
     let budget = rng.range(2, 30);
-    let (pre, root, post, decl) = {
-        let mut g = CliGen { rng: &mut rng, budget, rich: true };
-        g.document()
+    let gen_doc = |rng: &mut Rng, budget: usize| -> (Vec<G>, G, Vec<G>, String) {
+        let (pre, root, post, decl) = {
+            let mut g = CliGen { rng, budget, rich: true };
+            g.document()
+        };
+        let mut doc = decl.clone();
+        for p in &pre {
+            render(p, false, &mut doc);
+        }
+        render(&root, true, &mut doc);
+        for p in &post {
+            render(p, false, &mut doc);
+        }
+        (pre, root, post, doc)
     };
-    let mut doc = decl.clone();
-    for p in &pre {
-        render(p, false, &mut doc);
-    }
-    render(&root, true, &mut doc);
-    for p in &post {
-        render(p, false, &mut doc);
+    let (mut pre, mut root, mut post, mut doc) = gen_doc(&mut rng, budget);
+    // some cases want a document in which some element has several element siblings before it
+    let sibling_family = rng.pct(8);
+    if sibling_family {
+        for _ in 0..12 {
+            if max_preceding_siblings(&root) >= 2 {
+                break;
+            }
+            let b = rng.range(10, 30);
+            let d = gen_doc(&mut rng, b);
+            pre = d.0;
+            root = d.1;
+            post = d.2;
+            doc = d.3;
+        }
     }
     let tool = if rng.pct(50) { "xq" } else { "xe" };
     let indent = rng.pct(50);
@@ -571,8 +634,99 @@ pub fn gen_case(seed: u64, id: u64) -> Case {
     // axes that leave the tree at the root, the parent of an attribute
     let mut special_fail = false;
     let mut doc_target = false;
-    if rng.pct(10) {
-        match rng.below(4) {
+    if sibling_family || rng.pct(10) {
+        match if sibling_family { 4 } else { rng.below(4) } {
+            4 | 5 => {
+                // one step along an axis from a single node obtained by a filter expression:
+                // node-sets come back in document order whatever the direction of the axis
+                let ep = sibling_rich_elem_path(&mut rng, &root);
+                let mut base = String::from("/*");
+                for e in &ep {
+                    base.push_str(&format!("/*[{}]", e));
+                }
+                paths.clear();
+                attr = None;
+                text_runs = false;
+                scalar = None;
+                need_ns = false;
+                let own = elem_path_to_path(&root, &ep).unwrap_or_default();
+                let mut sibs_before: Vec<Vec<usize>> = vec![];
+                let mut sibs_after: Vec<Vec<usize>> = vec![];
+                if let Some((last, parent)) = own.split_last() {
+                    if let Some(G::El { kids, .. }) = get(&root, parent) {
+                        for (i, k) in kids.iter().enumerate() {
+                            if matches!(k, G::El { .. }) && i != *last {
+                                let mut p = parent.to_vec();
+                                p.push(i);
+                                if i < *last {
+                                    sibs_before.push(p);
+                                } else {
+                                    sibs_after.push(p);
+                                }
+                            }
+                        }
+                    }
+                }
+                let mut ancestors: Vec<Vec<usize>> = (0..own.len()).map(|n| own[..n].to_vec()).collect();
+                let name_of = |p: &Vec<usize>| -> String {
+                    match get(&root, p) {
+                        Some(G::El { name, .. }) => name.clone(),
+                        _ => String::new(),
+                    }
+                };
+                let form = rng.below(if tool == "xq" { 6 } else { 4 });
+                let wrap = |rng: &mut Rng, base: &str| -> String {
+                    match rng.below(3) {
+                        0 => base.to_string(),
+                        1 => format!("({})", base),
+                        _ => format!("({})[1]", base),
+                    }
+                };
+                match form {
+                    0 => {
+                        expr = format!("{}/preceding-sibling::*", wrap(&mut rng, &base));
+                        paths = sibs_before.clone();
+                        what = "preceding element siblings of one element".into();
+                    }
+                    1 => {
+                        expr = format!("{}/following-sibling::*", wrap(&mut rng, &base));
+                        paths = sibs_after.clone();
+                        what = "following element siblings of one element".into();
+                    }
+                    2 | 3 => {
+                        // conversion of a reverse-axis node-set inside a predicate: its first node in document order counts
+                        let right = rng.pct(70);
+                        let first = sibs_before.first().map(|p| name_of(p)).unwrap_or_default();
+                        let probe = if right { first.clone() } else { sibs_before.last().map(|p| name_of(p)).unwrap_or_else(|| "a".into()) };
+                        expr = format!("{}[name(preceding-sibling::*) = \"{}\"]", base, probe);
+                        if probe == first && !(sibs_before.is_empty() && !probe.is_empty()) {
+                            paths.push(own.clone());
+                        }
+                        what = "element chosen by the name of its first preceding sibling".into();
+                    }
+                    4 => {
+                        if rng.pct(50) {
+                            ancestors.push(own.clone());
+                            expr = format!("{}/ancestor-or-self::*", wrap(&mut rng, &base));
+                        } else {
+                            expr = format!("{}/ancestor::*", wrap(&mut rng, &base));
+                        }
+                        paths = ancestors.clone();
+                        what = "ancestor elements of one element, outermost first".into();
+                    }
+                    _ => {
+                        let mut sv = String::new();
+                        if let Some(p) = sibs_before.first() {
+                            if let Some(g) = get(&root, p) {
+                                string_value(g, &mut sv);
+                            }
+                        }
+                        expr = format!("string({}/preceding-sibling::*)", wrap(&mut rng, &base));
+                        scalar = Some(sv);
+                        what = "string() of preceding siblings: the first in document order".into();
+                    }
+                }
+            }
             0 => {
                 expr = "/".into();
                 paths.clear();
